@@ -102,6 +102,11 @@ type Context struct {
 	PicWidthInLumaSamples  uint32 // sps
 	PicHeightInLumaSamples uint32 // sps
 
+	// Width Height 显示的宽高，也即 PicWidthInLumaSamples, PicHeightInLumaSamples 减去 conformance window 裁剪掉的部分。
+	// 比如1080p的流，PicHeightInLumaSamples为1088，Height为1080
+	Width  uint32 // sps
+	Height uint32 // sps
+
 	ConfigurationVersion uint8 // const value: 1
 
 	GeneralProfileSpace              uint8
@@ -531,8 +536,9 @@ func ParseSps(sps []byte, ctx *Context) (err error) {
 		return err
 	}
 	ctx.ChromaFormat = uint8(cf)
+	var separateColourPlaneFlag uint8
 	if ctx.ChromaFormat == 3 {
-		if _, err = br.ReadBit(); err != nil {
+		if separateColourPlaneFlag, err = br.ReadBit(); err != nil {
 			return err
 		}
 	}
@@ -549,18 +555,39 @@ func ParseSps(sps []byte, ctx *Context) (err error) {
 	if err != nil {
 		return err
 	}
+	ctx.Width = ctx.PicWidthInLumaSamples
+	ctx.Height = ctx.PicHeightInLumaSamples
 	if conformanceWindowFlag != 0 {
-		if _, err = br.ReadGolomb(); err != nil {
+		var confWinLeftOffset, confWinRightOffset, confWinTopOffset, confWinBottomOffset uint32
+		if confWinLeftOffset, err = br.ReadGolomb(); err != nil {
 			return err
 		}
-		if _, err = br.ReadGolomb(); err != nil {
+		if confWinRightOffset, err = br.ReadGolomb(); err != nil {
 			return err
 		}
-		if _, err = br.ReadGolomb(); err != nil {
+		if confWinTopOffset, err = br.ReadGolomb(); err != nil {
 			return err
 		}
-		if _, err = br.ReadGolomb(); err != nil {
+		if confWinBottomOffset, err = br.ReadGolomb(); err != nil {
 			return err
+		}
+
+		// ITU-T H.265 7.4.3.2.1
+		// 裁剪的单位为SubWidthC, SubHeightC，取决于色度格式
+		subWidthC, subHeightC := uint32(1), uint32(1)
+		if separateColourPlaneFlag == 0 {
+			switch ctx.ChromaFormat {
+			case 1: // 4:2:0
+				subWidthC, subHeightC = 2, 2
+			case 2: // 4:2:2
+				subWidthC, subHeightC = 2, 1
+			}
+		}
+		if w := subWidthC * (confWinLeftOffset + confWinRightOffset); w < ctx.Width {
+			ctx.Width -= w
+		}
+		if h := subHeightC * (confWinTopOffset + confWinBottomOffset); h < ctx.Height {
+			ctx.Height -= h
 		}
 	}
 
